@@ -186,9 +186,48 @@ def gen_path_doc(rng, max_lines):
     return {"version": "gfa1", "lines": body, "features": sorted(set(feats))}
 
 
+def gen_two_way_paths_doc(rng):
+    """Two (sometimes three) paths over ONE link, walking it in the same or in opposite directions: the first usually with
+    `*` overlaps, the others with the overlap spelled for their own direction (the complement of the link's overlap when
+    they walk it backwards); the link's overlap is mostly asymmetric (I/D), the link is written in either form.  With
+    every order of the 4-6 lines this covers: both paths before the link (the placeholder link takes the overlap of the
+    first step that states one), the link between them, the link first."""
+    feats = ["two-way-paths"]
+    a, b = rng.sample(list(D.SEG1), 2) if rng.random() < 0.85 else (lambda x: (x, x))(rng.choice(list(D.SEG1)))
+    oa, ob = rng.choice("+-"), rng.choice("+-")
+    ov = rng.choice(OTHER_OV) if rng.random() < 0.8 else rng.choice(SELF_COMPL_OV[2:])
+    if rng.random() < 0.5:
+        link = "L\t%s\t%s\t%s\t%s\t%s" % (a, oa, b, ob, ov)
+    else:
+        link = "L\t%s\t%s\t%s\t%s\t%s" % (b, D.inv(ob), a, D.inv(oa), D.cig_compl(ov))
+        feats.append("path-over-complement")
+    if rng.random() < 0.3:
+        link += "\tID:Z:" + rng.choice(list(D.LINKIDS))
+    fwd = ("%s%s,%s%s" % (a, oa, b, ob), ov)
+    bwd = ("%s%s,%s%s" % (b, D.inv(ob), a, D.inv(oa)), D.cig_compl(ov))
+    pn = [x for x in D.PATHS if x not in (a, b)]
+    paths = []
+    n = rng.choice([2, 2, 3])
+    for k in range(n):
+        walk, spelled = (fwd, bwd)[rng.random() < 0.6] if k else (fwd, bwd)[rng.random() < 0.3]
+        star = (k == 0 and rng.random() < 0.8) or (k > 0 and rng.random() < 0.2)
+        paths.append("P\t%s\t%s\t%s" % (pn[k], walk, "*" if star else spelled))
+        if star:
+            feats.append("star-path")
+    segl = ["S\t%s\t%s" % (x, rng.choice(["*", "ACGTACGT"])) for x in dict.fromkeys((a, b))]
+    if rng.random() < 0.3:
+        segl = segl[:1]           # one of the segments is never defined: placeholders stay
+        feats.append("undefined-segment")
+    lines = segl + [link] + paths
+    rng.shuffle(lines)
+    return {"version": "gfa1", "lines": lines, "features": feats}
+
+
 def gen_case(rng, tier, i):
     ml = rng.choice([3, 4, 5, 5, 6, 6]) if tier == "quick" else rng.choice([4, 5, 6, 6, 7, 8, 10, 16])
-    if i % 3 == 2:
+    if i % 9 == 5:
+        d = gen_two_way_paths_doc(rng)
+    elif i % 3 == 2:
         d = gen_path_doc(rng, min(max(ml, 4), 7))
     else:
         d = D.gen_doc(rng, max_lines=ml, same_id_groups=True, odd=0.2)
